@@ -77,7 +77,7 @@ theorem enabled_of {s : State} (h : Inv s) (h2 : Inv2 s) (hB : s.lockB = none) {
   have en := en_of hx
   simp only at en hlive hns hnb hL hslot l3 l4 l7 hctx hpw
   cases pc <;> simp [live, sleeping, holdsB, needsL] at hlive hns hnb hL
-  case mut => exact en .touch (by simp) (by simp [stepAt, Except.isOk, Except.toBool])
+  case «mut» => exact en .touch (by simp) (by simp [stepAt, Except.isOk, Except.toBool])
   case poll0 => exact en (.loadS w st) (by simp) (by simp [stepAt, Except.isOk, Except.toBool])
   case pollSlow =>
     exact en (.swapS w st 4) (by simp) (by by_cases h2' : st = 2 <;> simp [stepAt, h2', Except.isOk, Except.toBool])
@@ -126,7 +126,7 @@ theorem enabled_of {s : State} (h : Inv s) (h2 : Inv2 s) (hB : s.lockB = none) {
     · exact en (.swapRT s.rt 1) (by simp) (by
         by_cases hc : s.list[0]? = some w ∧ s.rt = 0 <;> simp [stepAt, h1, hc, Except.isOk, Except.toBool])
     · exact en .lockB (by simp) (by
-        by_cases hc : ¬ s.armed = true ∧ w ∈ s.list <;> simp [stepAt, h1, hB, hc, Except.isOk, Except.toBool])
+        by_cases hc : s.armed = false ∧ w ∈ s.list <;> simp [stepAt, h1, hB, hc, Except.isOk, Except.toBool])
   case opS => exact en .opTouch (by simp) (by simp [stepAt, Except.isOk, Except.toBool])
   case op => exact en .opTouch (by simp) (by simp [stepAt, Except.isOk, Except.toBool])
   case rtS1 =>
@@ -169,5 +169,160 @@ theorem enabled_of {s : State} (h : Inv s) (h2 : Inv2 s) (hB : s.lockB = none) {
       obtain ⟨y, hy, -, -⟩ := h.mem k _ hku
       exact en (.swapS s.list[k] y.st 1) (by simp) (by
         by_cases a0 : (y.st = 4 ∨ y.st = 3) <;> simp [stepAt, hklt, hy, a0, Except.isOk, Except.toBool])
+
+
+/-- the owner recorded for the list lock is a thread slot -/
+theorem Reach.lockL_valid {N : Nat} {s : State} (hr : Reach N s) : ∀ b, s.lockL = some b → s.thr[b]? ≠ none := by
+  induction hr with
+  | init => intro b hb; simp [Dora.Stw.init] at hb
+  | step hr' ha ih =>
+    rename_i s0 s1 e
+    intro b hb1
+    obtain ⟨pc, st, idx, ht, hs⟩ := accept_step ha
+    have hlen : s1.thr.length = s0.thr.length := by
+      cases hs <;> simp [State.setPc, State.setSt, State.setIdx]
+    have hval : ∀ u : Nat, s0.thr[u]? ≠ none → s1.thr[u]? ≠ none := by
+      intro u hu
+      have : u < s0.thr.length := by
+        rcases Nat.lt_or_ge u s0.thr.length with h1 | h1
+        · exact h1
+        · exact absurd (List.getElem?_eq_none h1) hu
+      rw [← hlen] at this
+      simp [List.getElem?_eq_getElem this]
+    by_cases hb0 : s0.lockL = some b
+    · exact hval b (ih b hb0)
+    · have hbe : b = e.tid := by
+        cases hs <;> simp_all [State.setPc, State.setSt, State.setIdx]
+      subst hbe
+      exact hval _ (by rw [ht]; simp)
+
+theorem runC_free {pc : PC} (h : runC pc = true) :
+    live pc = true ∧ sleeping pc = false ∧ holdsB pc = false ∧ needsL pc = false ∧ holdsL pc = false := by
+  cases pc <;> simp_all [runC, live, sleeping, holdsB, needsL, holdsL]
+
+theorem stOk_two {pc : PC} (h : StOk pc 2) : runC pc = true := by
+  cases pc <;> simp_all [StOk, runC]
+
+theorem pendPc_free {pc : PC} (h : isPendPc pc = true) :
+    live pc = true ∧ sleeping pc = false ∧ holdsB pc = false ∧ needsL pc = false := by
+  cases pc <;> simp_all [isPendPc, live, sleeping, holdsB, needsL]
+
+theorem holdsL_free {pc : PC} (h : holdsL pc = true) : live pc = true ∧ needsL pc = false := by
+  cases pc <;> simp_all [holdsL, live, needsL]
+
+/-- Progress: some thread can take a step that is not a spurious wake-up. -/
+theorem progress {N : Nat} {s : State} (hr : Reach N s)
+    (hslots : ∀ (t : Nat) (x : Thr), s.thr[t]? = some x → x.pc = .addA →
+      ∃ (u : Nat) (y : Thr), s.thr[u]? = some y ∧ y.pc = .unborn)
+    (hlive : ∃ (w : Nat) (x : Thr), s.thr[w]? = some x ∧ live x.pc = true) :
+    ∃ (e : Event) (s' : State), e.act ≠ .spur ∧ accept s e = .ok s' := by
+  have h := hr.inv
+  have h2 := hr.inv2
+  cases hB : s.lockB with
+  | some b =>
+    cases hx : s.thr[b]? with
+    | none => exact absurd hx (hr.lockB_valid b hB)
+    | some x => exact holderB_enabled h hx ((h.loc b x hx).2.1.mpr hB)
+  | none =>
+    have nobodyB : ∀ (w : Nat) (x : Thr), s.thr[w]? = some x → holdsB x.pc = false := by
+      intro w x hx
+      cases hh : holdsB x.pc
+      · rfl
+      · have := (h.loc w x hx).2.1.mp hh; rw [hB] at this; cases this
+    cases hL : s.lockL with
+    | some l =>
+      cases hx : s.thr[l]? with
+      | none => exact absurd hx (hr.lockL_valid l hL)
+      | some x =>
+        have hhl : holdsL x.pc = true := (h.loc l x hx).1.mpr hL
+        obtain ⟨hlv, hnl⟩ := holdsL_free hhl
+        cases hsl : sleeping x.pc
+        · exact enabled_of h h2 hB hx hlv hsl (nobodyB l x hx) (by rw [hnl]; intro e; cases e)
+            (hslots l x hx)
+        · -- the initiator sleeps in `cv_notify.wait`: somebody still has to report, and can
+          obtain ⟨pc, st, idx⟩ := x
+          cases pc <;> simp [sleeping, holdsL] at hsl hhl
+          rename_i r
+          rcases h2.waitN l r (pcOf_eq hx) with hlt | ⟨b, q, hb, -, -⟩
+          · have hC := h.cnt
+            have hph := (h.loc l _ hx).2.2.2.2.2.2
+            simp [PhOk] at hph
+            rw [cntOk_iff, hph.1] at hC
+            simp only [CntTarget] at hC
+            have hpos : 0 < s.thr.countP isPend := by omega
+            rw [List.countP_pos_iff] at hpos
+            obtain ⟨y, hy, hyp⟩ := hpos
+            obtain ⟨u, hu⟩ := List.getElem?_of_mem hy
+            simp [isPend] at hyp
+            rcases hyp with h2st | hpp
+            · have hrc := stOk_two (by have := (h.loc u y hu).2.2.1; rwa [h2st] at this)
+              obtain ⟨a1, a2, a3, a4, -⟩ := runC_free hrc
+              exact enabled_of h h2 hB hu a1 a2 a3 (by rw [a4]; intro e; cases e) (hslots u y hu)
+            · obtain ⟨a1, a2, a3, a4⟩ := pendPc_free hpp
+              exact enabled_of h h2 hB hu a1 a2 a3 (by rw [a4]; intro e; cases e) (hslots u y hu)
+          · rw [hB] at hb; cases hb
+    | none =>
+      obtain ⟨w, x, hx, hlv⟩ := hlive
+      obtain ⟨hid, hrt⟩ := h.nolock hL
+      have hna : s.armed = false := by
+        cases ha : s.armed
+        · rfl
+        · exact absurd hid (h.armedIff.mp ha)
+      have hns : sleeping x.pc = false := by
+        cases hsl : sleeping x.pc
+        · rfl
+        · exfalso
+          obtain ⟨pc, st, idx⟩ := x
+          cases pc <;> simp [sleeping] at hsl
+          · rcases h2.waitW w _ (pcOf_eq hx) rfl with h1 | ⟨b, hb, -⟩
+            · rw [hna] at h1; cases h1
+            · rw [hB] at hb; cases hb
+          · rcases h2.waitW w _ (pcOf_eq hx) rfl with h1 | ⟨b, hb, -⟩
+            · rw [hna] at h1; cases h1
+            · rw [hB] at hb; cases hb
+          · have := (h.loc w _ hx).1.mp rfl; rw [hL] at this; cases this
+      exact enabled_of h h2 hB hx hlv hns (nobodyB w x hx) (fun _ => hL) (hslots w x hx)
+
+/-- `disarm`: after its `notify_all` nobody is left in the wait set of `cv_wakeup`, the barrier is unarmed, and
+no state byte carries a request bit. -/
+theorem all_resume_notify {N : Nat} {s : State} (hr : Reach N s) {i k : Nat} {s' : State} (ha : accept s ⟨i, .naW k⟩ = .ok s') :
+    s'.thr.countP isWaitW = 0 ∧ s'.armed = false ∧ ∀ (u : Nat) (y : Thr), s'.thr[u]? = some y → y.st = 0 ∨ y.st = 1 := by
+  have hr' : Reach N s' := Reach.step hr ha
+  have h' := hr'.inv
+  obtain ⟨pc, st, idx, ht, hs⟩ := accept_step ha
+  have hpc : pc = .disB1 := by
+    unfold accept at ha; simp only at ha; rw [ht] at ha; simp only at ha
+    cases pc <;> simp [stepAt] at ha
+    rfl
+  subst hpc
+  have hs' : s' = { s with thr := s.thr.map wakeW }.setPc i .disB2 := by
+    unfold accept at ha; simp only at ha; rw [ht] at ha; simp only [stepAt] at ha
+    split at ha <;> simp at ha
+    exact ha.symm
+  have hid : s'.phase = .idle := by
+    have := (hr.inv.loc i _ ht).2.2.2.2.2.2
+    simp [PhOk] at this
+    rw [hs']; exact this.1
+  refine ⟨?_, ?_, ?_⟩
+  · rw [hs']
+    simp only [State.setPc]
+    rw [List.countP_eq_zero]
+    intro y hy
+    obtain ⟨u, hu⟩ := List.getElem?_of_mem hy
+    rw [List.getElem?_modify, List.getElem?_map] at hu
+    cases hx : s.thr[u]? with
+    | none => rw [hx] at hu; simp at hu
+    | some x =>
+      rw [hx] at hu; simp at hu; subst hu
+      obtain ⟨pcx, stx, idxx⟩ := x
+      by_cases hiu : i = u <;> cases pcx <;> simp [hiu, wakeW, isWaitW]
+  · cases ha' : s'.armed
+    · rfl
+    · exact absurd hid (h'.armedIff.mp ha')
+  · intro u y hy
+    have := (h'.loc u y hy).2.2.2.2.1
+    rw [hid, reqBit_iff] at this
+    simp [PhC] at this
+    omega
 
 end Dora.Stw
